@@ -830,6 +830,10 @@ def replay(obj, mod, rz, opts=frozenset()):
                 out.append(("C05", "abort-changed-root", {"action": a}))
             if w.prune and {k: v for k, v in w.t.ref_count.items() if v} != b_rc:
                 out.append(("C05", "abort-changed-ref-counts", {"action": a}))
+                bi = max(i for i, e in enumerate(h) if e["a"] == "begin")
+                if any((e.get("out") or {}).get("kind", "").startswith("missing") for e in h[bi:]):
+                    # the batch failed on a missing node: C07 wants the counts untouched by that failure
+                    out.append(("C07", "batch-that-hit-a-missing-node-left-ref-counts-changed", {"action": a}))
             if a == "abort" and st.get("nlost", 0) == 0 and not any(
                     e["a"] in ("lose", "supply") for e in h) and now_db != b_db:
                 out.append(("C05", "abort-changed-database", {"action": a}))
